@@ -100,6 +100,9 @@ func main() {
 			case "full":
 				keys = corpus.OptKeys
 			case "behave":
+				// the per-message template carries its own copy of the top-level methods: every unit gets both
+				// layouts; the unsafe-decode variants go to a third of the units (quick) or to all (thorough)
+				keys = []string{"d", "pm"}
 				if *tier == "thorough" || (ui+int(*seed))%3 == 0 {
 					keys = corpus.OptKeys
 				}
